@@ -482,6 +482,9 @@ class Fold:
     def ev_lambda(self, n, env):
         self.lambdas = getattr(self, "lambdas", {})
         self.lambdas["lambda@%s" % n["id"]] = n
+        # by-value captures keep the value the variable has NOW (the caller may change the variable before the lambda runs)
+        self.lambda_snap = getattr(self, "lambda_snap", {})
+        self.lambda_snap["lambda@%s" % n["id"]] = {c["decl"]: env.get(c["decl"]) for c in (n.get("captures") or []) if not c.get("by_ref") and env.get(c["decl"]) is not None}
         return S("lambda@%s" % n["id"])
 
     def ev_sizeof(self, n, env):
@@ -578,7 +581,9 @@ class Fold:
         kind, g = tgt
         if kind == "lambda":
             params, body, arg_nodes = g["params"], g["body"], n["args"][1:]
-            sub = env.copy()               # captures are read (and written) through the caller's variables
+            sub = env.copy()               # by-reference captures are read (and written) through the caller's variables
+            for dcl_, val_ in getattr(self, "lambda_snap", {}).get("lambda@%s" % g.get("id"), {}).items():
+                sub[dcl_] = val_           # by-value captures: the value at creation
         else:
             params, body, arg_nodes = g.j["params"], g.j["body"], n.get("args", [])
             sub = Env()
